@@ -34,18 +34,27 @@ def quick_sizes():
     return sorted(s)
 
 
-def family(rng, builder, n, sizes):
-    """n items of one template with the same (direction, key length) so that they form one synchronous
-    burst, and unequal lengths"""
-    first = builder(rng, 64)
-    sig = (first.get("dir"), len(first.get("key", "-")), first.get("tag"))
-    out = [first]
+SYNC_CIPHER = {"aes-cbc": ((1, 2), (16, 24, 32)), "aes-ctr": ((1, 2), (16, 24, 32)), "aes-ctr12": ((1,), (16, 24, 32)),
+               "aes-ecb": ((1, 2), (16, 24, 32)), "aes-cfb": ((1, 2), (16, 24, 32)), "aes-ccm": ((1, 2), (16, 32))}
+
+
+def family(rng, builder, n, sizes, want=None):
+    """n items of one template with unequal lengths.  want = (direction, key length): all items share
+    them, so that consecutive items form ONE synchronous cipher / AEAD burst (the burst call takes the
+    direction and the key size as arguments)"""
+    out = []
     guard = 0
-    while len(out) < n and guard < 100000:
+    while len(out) < n and guard < 200000:
         guard += 1
-        d = builder(rng, rng.choice(sizes))
-        if (d.get("dir"), len(d.get("key", "-")), d.get("tag")) == sig:
-            out.append(d)
+        d = builder(rng, rng.choice(sizes) if out else 64)
+        if want is not None:
+            if len(d.get("key", "-")) != 2 * want[1]:
+                continue
+            if d.get("cipher") is not None and "aad" in d and "order" in d and d.get("dir") == 1 and want[0] == 2:
+                d["dir"], d["order"] = 2, 1          # CCM decrypt: cipher first, then hash
+            if d.get("dir") != want[0]:
+                continue
+        out.append(d)
     return out
 
 
@@ -162,6 +171,10 @@ def main(tier, seed):
                            "harness/k1_algo.c + imbh.c, harness/k9_entry.c, this Python driver"])
     k1 = common.build_harness("k1_algo", extra_src=["imbh.c"])
     k9 = common.build_harness("k9_entry", extra_src=["imbh.c"])
+    # managers that fail their power-on self test are dropped silently by imbh_enum_variants: probe them
+    k11 = common.build_harness("k11_keyprep", extra_src=["imbh.c"])
+    probe = common.run([k11, os.devnull], env=common.lib_env(), timeout=300).stdout
+    selftest_bad = [l for l in probe.splitlines() if l.startswith("selftest ") and not l.endswith("errno=0")]
     rng = Rng(seed)
     T = c04.templates(C)
     workdir = os.path.join(common.BUILD, "c09")
@@ -181,23 +194,31 @@ def main(tier, seed):
     next_id = 1
     fam_meta = []
     t_gen = time.time()
+    fams = []
     for name, b in T:
-        is_sync = name in SYNC_TEMPLATES
-        its = family(rng, b, n_sync if is_sync else n_other, sizes)
+        if name in SYNC_CIPHER:
+            dirs, klens = SYNC_CIPHER[name]
+            for d_ in dirs:
+                for kl in klens:
+                    fams.append(("%s.%s%d" % (name, "enc" if d_ == 1 else "dec", 8 * kl), name, b, (d_, kl), True))
+        else:
+            fams.append((name, name, b, None, name in SYNC_TEMPLATES))
+    for fname, name, b, want, is_sync in fams:
+        its = family(rng, b, n_sync if is_sync else n_other, sizes, want)
         ids = []
-        path = os.path.join(workdir, "fam_%s.txt" % name.replace("+", "_"))
+        path = os.path.join(workdir, "fam_%s.txt" % fname.replace("+", "_"))
         with open(path, "w") as f, open(path + ".small", "w") as fs:
             for k, d in enumerate(its):
                 line = c04.item_line(next_id, d)
-                all_items[next_id] = (name, line)
+                all_items[next_id] = (fname, line)
                 ids.append(next_id)
                 f.write(line + "\n")
                 if k < small_n:
                     fs.write(line + "\n")
                 next_id += 1
         batches = sync_batches if is_sync else other_batches
-        fam_meta.append((name, len(ids), is_sync))
-        jobs.append((k1, path, name, ids, batches, small_n, common.lib_env()))
+        fam_meta.append((fname, len(ids), is_sync))
+        jobs.append((k1, path, fname, ids, batches, small_n, common.lib_env()))
     t_gen = time.time() - t_gen
     t0 = time.time()
     sums = []
@@ -225,7 +246,10 @@ def main(tier, seed):
     for l in dout.splitlines():
         if l.startswith("id=") and "skip=" not in l:
             kv = dict(x.split("=", 1) for x in l.split() if "=" in x)
-            dres.setdefault((int(kv["id"]), kv["var"]), {})[int(kv["ep"])] = "status=%s errno=%s" % (kv.get("status"), kv.get("errno"))
+            # verdict = processed or refused, and with which error (a refused synchronous burst marks a job
+            # INVALID_ARGS only when a per-job field is at fault; the direction is an argument of the call)
+            dres.setdefault((int(kv["id"]), kv["var"]), {})[int(kv["ep"])] = "%s errno=%s" % (
+                "processed" if kv.get("status") == "3" else "refused", kv.get("errno"))
     dir_bad = []
     for (i, var), eps in dres.items():
         if len(set(eps.values())) > 1:
@@ -313,6 +337,14 @@ def main(tier, seed):
                            what="direct API result differs from the 1-buffer call / the equivalent job",
                            nfails_this_signature=sum(1 for (v2, kv2, _) in k9_fail_lines
                                                      if v2.split(":")[0] == arch and kv2.get("test") == kv.get("test") and kv2.get("sub") == kv.get("sub")))
+    if not variants or nlines == 0 or k9_cases == 0:
+        viol[("no_output",)] = dict(kind="hang", property=PID, variants=variants, k1_lines=nlines, k9_cases=k9_cases,
+                                    what="no implementation variant could be initialised / the harnesses produced no result "
+                                         "(library init or self-test failure?)", stderr=vt[-500:])
+    if selftest_bad:
+        viol[("selftest",)] = dict(kind="hang", property=PID, lines=selftest_bad,
+                                   what="these managers fail their power-on self test at init and were therefore NOT exercised "
+                                        "through any entry point (the variants listed in the evidence are the remaining ones)")
     if hangs:
         viol[("hang",)] = dict(kind="hang", property=PID, what="k1_algo timed out (hang inside the library)")
     distinct = sum(s["items_multi"] for s in sums)
@@ -325,7 +357,7 @@ def main(tier, seed):
                 ">= 2 entry points or batch sizes + k9 cases",
         "k1_result_lines": nlines, "k1_comparisons": ncmp, "k1_by_entry_point": eps_cov,
         "entry_points": "0 job, 1 job nocheck, 2 async burst, 3 async burst nocheck, 4 sync cipher/hash/AEAD burst, 5 direct, 6 sync nocheck",
-        "templates": [n for (n, k, s) in fam_meta], "sync_templates": SYNC_TEMPLATES,
+        "families": [n for (n, k, s) in fam_meta], "sync_families": [n for (n, k, s) in fam_meta if s],
         "items_per_template": n_sync, "sync_batch_sizes": sync_batches, "other_batch_sizes": other_batches,
         "lengths": sizes, "variants": variants,
         "templates_rejected_by_library": rejected,
@@ -374,7 +406,7 @@ def replay(path):
         for l in out.splitlines():
             if l.startswith("id=") and "skip=" not in l:
                 kv = dict(x.split("=", 1) for x in l.split() if "=" in x)
-                d.setdefault((kv["id"], kv["var"]), set()).add((kv["status"], kv["errno"]))
+                d.setdefault((kv["id"], kv["var"]), set()).add((kv["status"] == "3", kv["errno"]))
         bad = [k for k, v in d.items() if len(v) > 1]
         print("items with differing verdicts:", bad[:10])
         return 1 if bad else 0
